@@ -9,7 +9,7 @@ root = os.path.dirname(os.path.dirname(os.path.abspath(__file__)))
 sections = {}
 cur = None
 for line in open(log, errors="replace"):
-    m = re.match(r"#### (C\d\d) ([AB])", line)
+    m = re.match(r"#### (C\d\d) ([ABC])", line)
     if m:
         cur = (m.group(1), m.group(2)); sections[cur] = []
     elif cur:
